@@ -44,42 +44,45 @@ def run_cached_config(run, name, consts, wd, spec, variant):
     t0 = time.time()
     gen = ST.generate(name, consts, wd)
     run.add_model(f"{name}[{variant}]", gen, {k: (sorted(v) if isinstance(v, set) else v) for k, v in consts.items()})
-    calls_at, states = explore.parse_transitions(gen["json"])
-    del gen
+    index = gen.pop("index")
     init = ST.base_state(consts)
     t1 = time.time()
-    _, confirmed, st, probed = explore.explore(consts, init, calls_at, states, caching=True, keep_records=False,
-                                               cache_mode={"spec": spec, "variant": variant})
+    agg = {"bad": 0, "judge_s": 0.0, "chunks": 0, "sampled": False}
+
+    def probe_sink(probed):
+        tj = time.time()
+        agg["chunks"] += 1
+        verdicts = Q.judge("C05", consts, probed, wd, f"{name}-{variant}-{agg['chunks']}")
+        agg["judge_s"] += time.time() - tj
+        by_id = {r["id"]: r for r in probed}
+        for v in verdicts:
+            r = by_id[v["id"]]
+            cls = W.alias_class(r["pre"], r["call"])
+            for j, e in zip(v["bad"], v["exp"]):
+                p = r["probes"][j - 1]
+                agg["bad"] += 1
+                run.violation(f"{cls}|{r['variant']}|stale-{p['q']}",
+                              f"after {r['call']['op']}{r['call']['a']} ({r['variant']}) cached {p['q']}{p['a']} answered "
+                              f"{p['res']} but the uncached answer is {e}",
+                              {"kind": "cache", "config": name, "variant": r["variant"], "spec": spec,
+                               "consts": {k: (sorted(x) if isinstance(x, set) else x) for k, x in consts.items()},
+                               "path": r["path"], "call": r["call"], "probe": {k: p[k] for k in ("q", "a", "f", "g", "M", "attr")},
+                               "observed": p["res"], "expected": e})
+        for r in probed:
+            run.count_class(f"{W.alias_class(r['pre'], r['call'])}|{r['variant']}")
+            run.evaluations += len(r["probes"])
+        run.traces += len(probed)
+        if not agg["sampled"] and probed:
+            agg["sampled"] = True
+            r = probed[len(probed) // 2]
+            run.sample({"config": name, "variant": r["variant"], "path": r["path"], "call": r["call"],
+                        "post": {k: r["S"][k] for k in ("kind", "ends", "vl")}, "answers": r["probes"][:3]})
+
+    _, confirmed, st, _ = explore.explore(consts, init, index, index, caching=True, keep_records=False,
+                                          cache_mode={"spec": spec, "variant": variant}, probe_sink=probe_sink)
     t2 = time.time()
-    verdicts = Q.judge("C05", consts, probed, wd, f"{name}-{variant}")
-    t3 = time.time()
-    by_id = {r["id"]: r for r in probed}
-    nbad = 0
-    for v in verdicts:
-        r = by_id[v["id"]]
-        cls = W.alias_class(r["pre"], r["call"])
-        for j, e in zip(v["bad"], v["exp"]):
-            p = r["probes"][j - 1]
-            nbad += 1
-            run.violation(f"{cls}|{r['variant']}|stale-{p['q']}",
-                          f"after {r['call']['op']}{r['call']['a']} ({r['variant']}) cached {p['q']}{p['a']} answered "
-                          f"{p['res']} but the uncached answer is {e}",
-                          {"kind": "cache", "config": name, "variant": r["variant"], "spec": spec,
-                           "consts": {k: (sorted(x) if isinstance(x, set) else x) for k, x in consts.items()},
-                           "path": r["path"], "call": r["call"], "probe": {k: p[k] for k in ("q", "a", "f", "g", "M", "attr")},
-                           "observed": p["res"], "expected": e})
-    nprobes = 0
-    for r in probed:
-        run.count_class(f"{W.alias_class(r['pre'], r['call'])}|{r['variant']}")
-        nprobes += len(r["probes"])
-    run.traces += len(probed)
-    run.evaluations += nprobes
-    if probed:
-        r = probed[len(probed) // 2]
-        run.sample({"config": name, "variant": r["variant"], "path": r["path"], "call": r["call"],
-                    "post": {k: r["S"][k] for k in ("kind", "ends", "vl")}, "answers": r["probes"][:3]})
-    st.update({"probes_failing": nbad, "variant": variant, "t_generate_s": round(t1 - t0, 1),
-               "t_execute_s": round(t2 - t1, 1), "t_judge_s": round(t3 - t2, 1)})
+    st.update({"probes_failing": agg["bad"], "variant": variant, "t_generate_s": round(t1 - t0, 1),
+               "t_execute_and_judge_s": round(t2 - t1, 1), "t_judge_s": round(agg["judge_s"], 1)})
     run.extra.setdefault("executions", []).append({"config": name, **st})
 
 
